@@ -41,6 +41,31 @@ type Net struct {
 	dials    map[string]int64
 	// DialDelay is slept before a dial completes.
 	DialDelay time.Duration
+	// down lists owners whose network is gone (crash emulation): existing
+	// connections go silent, new dials are refused.
+	down map[string]bool
+}
+
+// Kill emulates the death of the network of one owner: every open connection
+// of that owner goes silent in both directions (nothing more is delivered to
+// either side) and new dials by that owner are refused.
+func (n *Net) Kill(owner string) {
+	n.mu.Lock()
+	if n.down == nil {
+		n.down = map[string]bool{}
+	}
+	n.down[owner] = true
+	conns := append([]*Conn(nil), n.conns...)
+	n.mu.Unlock()
+	for _, c := range conns {
+		if c.Owner == owner {
+			c.peer.Abort(CutStall) // server -> client: silence
+			c.out.mu.Lock()        // client -> server: the server sees the connection end
+			c.out.wclosed = true
+			c.out.cond.Broadcast()
+			c.out.mu.Unlock()
+		}
+	}
 }
 
 func New() *Net {
@@ -81,6 +106,10 @@ func (n *Net) DialOwner(ctx context.Context, network, addr, owner string) (net.C
 		return nil, err
 	}
 	n.mu.Lock()
+	if n.down[owner] {
+		n.mu.Unlock()
+		return nil, Refused(addr)
+	}
 	h := n.handlers[addr]
 	n.dials[addr]++
 	cnt := n.dials[addr]
